@@ -46,7 +46,7 @@ VERSIONS = {"2020-12": "DRAFT_2020_12", "2019-09": "DRAFT_2019_09", "draft-07": 
 
 @st.composite
 def schema_programs(draw, cfg=None, clash_rate=0.08):
-    cfg = dict({"max_depth": 3, "fall_back": False, "lit_in_union": False, "unsup": False}, **(cfg or {}))
+    cfg = dict({"max_depth": 3, "fall_back": False, "lit_in_union": False, "unsup": False, "methods": True}, **(cfg or {}))
     g = gen.TypeGen(draw, cfg)
     depth = draw(st.integers(1, cfg["max_depth"]))
     root = g.type(depth)
@@ -196,24 +196,7 @@ def evaluate(case, ctx):
         b.close()
 
 
-def _features(prog):
-    feats = {}
-    rec = tdcase.recursive_classes(prog)
-    agg_rec = False
-    nested_flatten = False
-    for i, cd in enumerate(prog["classes"]):
-        for f in cd["fields"]:
-            if f.get("agg"):
-                refs = {j for k_, j in tdcase.reachable_named(prog, f["t"]) if k_ == "cls"}
-                if refs & rec or i in refs:
-                    agg_rec = True
-                if f["agg"] == "flatten":
-                    sub = prog["classes"][M.strip(f["t"], prog)["i"]]
-                    if any(g_.get("agg") for g_ in sub["fields"]):
-                        nested_flatten = True
-    feats["recursive_aggregate"] = agg_rec
-    feats["nested_flatten"] = nested_flatten
-    return feats
+_features = tdcase.schema_features
 
 
 def _evaluate(case, ctx, b, prog, opts):
